@@ -53,6 +53,7 @@ class Engine:
         self.qfacts = []              # global lazily-instantiated facts
         self.contracts_used = set()
         self._alias_cache = {}
+        self.global_cache = {}
         self.axiom_ids = set()        # ids of valid facts (UF inverse axioms, ghost lengths >= 0, definitional equations of fresh symbols)
         self.use_contracts = {}       # qname -> contract (set by the driver for the function under check)
         self.max_depth = 14
@@ -547,6 +548,12 @@ class Engine:
                 if isinstance(v, LVS): return v
                 return LocalLV(vid)
             if kind == 'BindingDecl':
+                if self.lazy_locals:
+                    t = TY.parse(rd['type'].get('desugaredQualType') or rd['type']['qualType']).noref()
+                    if self.is_value_type(t):
+                        self.var_names[vid] = rd.get('name')
+                        st.env[vid] = self.fresh_value(t, 'any.' + rd.get('name', 'b'))
+                        return LocalLV(vid)
                 raise Unsupported('binding %s not bound' % rd.get('name'))
             if self.lazy_locals and kind in ('VarDecl', 'ParmVarDecl') and rd['id'] in self.ast.by_id and self.is_function_local(rd['id']):
                 t = TY.parse(rd['type'].get('desugaredQualType') or rd['type']['qualType'])
@@ -583,8 +590,9 @@ class Engine:
             init = [c for c in d.get('inner', []) if c.get('kind', '').endswith(('Expr', 'Literal', 'Operator'))]
             if init and ('const' in d['type']['qualType'] or d.get('constexpr')):
                 key = 'glob!' + rd['id']
-                if key not in st.env:
-                    st.env[key] = self.rv(init[0], st, fr)
+                if key not in self.global_cache:
+                    self.global_cache[key] = self.rv(init[0], st, fr)      # constants: evaluated once, the same term on every path
+                st.env[key] = self.global_cache[key]
                 return LocalLV(key)
         v = self.models.global_var(name, rd, st)
         if v is not None:
